@@ -39,7 +39,7 @@ Definition conn_state (c : cfg) (n : N) (p : bool) : cstate :=
   mkS CONNECTING n false false false false false RNone None None None None false false false
       (Some 0) None None None None 1
       [mkT (openF c) (Some (quant (t_start c + openHandshakeTimeout c))) [(TOpenHS, 0)]]
-      None 0 None None p.
+      None 0 None None p SGround false false.
 
 Lemma init_conn_state : forall c, 0 < openHandshakeTimeout c -> init c = conn_state c (t_start c) (negb (is_server c) && c_proxy c).
 Proof.
@@ -56,7 +56,9 @@ Lemma connecting_step : forall c e n p, let F := openF c in
   no_open_reaction e -> tick_before F e ->
   exists n' p', fst (step c (conn_state c n p) e) = conn_state c n' p' /\ n <= n' /\ (n' = n \/ n' < F).
 Proof.
-  intros c e n p F Hr Ht. subst F. unfold conn_state. destruct e; simpl in Hr; try contradiction; unfold step, handle.
+  intros c e n p F Hr Ht. subst F. unfold conn_state.
+  destruct e; simpl in Hr; try contradiction; unfold step, handle;
+    try solve [ exists n, p; simpl; split; [reflexivity|split; [lia|auto]] ].
   - (* the proxy answers the CONNECT: the same timer keeps running *)
     destruct p; [exists n, false | exists n, false]; simpl; (split; [reflexivity|split; [lia|auto]]).
   - (* sendClose *)
@@ -64,22 +66,11 @@ Proof.
     destruct (match code with Some cd => negb (api_code_ok cd) | None => false end);
       [|destruct (isSome reason && negb (isSome code))]; simpl;
       (split; [reflexivity|split; [lia|auto]]).
-  - exists n, p. simpl. split; [reflexivity|split; [lia|auto]].
-  - exists n, p. simpl. split; [reflexivity|split; [lia|auto]].
-  - exists n, p. simpl. split; [reflexivity|split; [lia|auto]].
-  - exists n, p. simpl. split; [reflexivity|split; [lia|auto]].
-  - exists n, p. simpl. split; [reflexivity|split; [lia|auto]].
-  - exists n, p. simpl. split; [reflexivity|split; [lia|auto]].
-  - exists n, p. simpl. split; [reflexivity|split; [lia|auto]].
-  - exists n, p. simpl. split; [reflexivity|split; [lia|auto]].
-  - exists n, p. simpl. split; [reflexivity|split; [lia|auto]].
-  - exists n, p. simpl. split; [reflexivity|split; [lia|auto]].
   - (* tick before the fire time *)
     simpl in Ht. exists (N.max n t), p.
     assert (E : (openF c <=? t) = false) by (apply N.leb_gt; exact Ht).
     unfold tick, bindS, seqM, pick_due. simpl. unfold bindS, pick_due. simpl. rewrite E.
     unfold ret, upd. simpl. split; [reflexivity|]. split; [lia|]. lia.
-  - exists n, p. simpl. split; [reflexivity|split; [lia|auto]].
 Qed.
 
 Lemma connecting_run : forall c evs n p log, let F := openF c in
